@@ -391,6 +391,9 @@ MUTATION_TOKENS = [b"\r", b"\n", b"\r\n", b" ", b"\t", b":", b";", b",", b"\x00"
                    b"Transfer-Encoding: chunked\r\n", b"_", b"\x85", b"+", b"-", b"1", b"g", b"\x7f", b"\xff"]
 
 
+BOUNDARY_TOKENS = [b"\r\n", b"\r\n", b"\r\n\r\n", b"\n", b"\r", b" ", b"\r\n ", b"\t\r\n", b"\n\r\n", b"\x00", b"0\r\n\r\n", b"\r\n\r\n\r\n"]
+
+
 def mutate(rng, s):
     if not s:
         return s
@@ -415,8 +418,14 @@ def gen_stream(rng, spec, nmax=3, mutate_p=0.35):
         b, info = gen_request(rng, spec, last=(i == n - 1))
         parts.append(b)
         infos.append(info)
-    s = b"".join(parts)
     mutated = False
+    if rng.random() < 0.12:
+        # structure-aware: something where a request line is expected - before the first request or right after a body
+        # (RFC 9112 2.2 allows a server to skip an empty line there; whatever gunicorn does must not depend on the reads)
+        k = rng.randrange(len(parts))
+        parts[k] = rng.choice(BOUNDARY_TOKENS) + parts[k]
+        mutated = True
+    s = b"".join(parts)
     if rng.random() < mutate_p:
         for _ in range(rng.choice([1, 1, 1, 2, 3])):
             s = mutate(rng, s)
